@@ -20,6 +20,10 @@
 (*   "iter_error_propagates"  isiterable() let every error of iter(x) but    *)
 (*                            TypeError through: deep rounding of a call     *)
 (*                            that holds a closed file raised ValueError     *)
+(*   "deep_mapping_from_keys" deep_round rebuilt a non-dict mapping from    *)
+(*                            its keys (a ChainMap of strings: no error)     *)
+(*   "shallow_dict_from_keys" shallow_round rebuilt a dict argument from     *)
+(*                            the list of its keys: dict(['ab'])            *)
 (*   "deep_rebuild_raises"    deep_round rebuilt every iterable with        *)
 (*                            type(j)(elements): range and namedtuple       *)
 (*                            arguments raised TypeError                    *)
@@ -95,6 +99,10 @@ Shape(i, a, b) ==
     \* equal sub-structures in one call (the real side also builds them as ONE shared object: f(v, v), [t, {'a': t}])
     [] i = 22 -> <<Node("tuple", <<a, b>>), Node("tuple", <<a, b>>)>>
     [] i = 23 -> <<Node("list", <<Node("tuple", <<a>>), Node("dict", <<SItem(100, Node("tuple", <<a>>))>>), b>>), Node("tuple", <<a>>)>>
+    \* a mapping that is not a dict (collections.ChainMap): nothing promises rounding inside it, but it must arrive in the key whole
+    [] i = 24 -> <<Node("cmap", <<SItem(100, a), SItem(101, b)>>), I(0)>>
+    \* a dict argument whose key has two characters ('ab')
+    [] i = 25 -> <<Node("dict", <<SItem(105, a)>>), b>>
     [] OTHER -> <<a, b>>
 \* sets of unhashable things do not exist, and a set holding equal members collapses: keep them distinct and hashable
 ValidShape(i, a, b) == (i \in {4, 5}) => ~EqT(a, b, FALSE)
@@ -119,6 +127,8 @@ DeepArg(j, tol) ==
             ELSE [j EXCEPT !.c = [i \in 1..Len(j.c) |-> [j.c[i] EXCEPT !.c = <<DeepArg(j.c[i].c[1], tol)>>]]]
   ELSE IF j.t \in {"list", "tuple", "set", "fset"}  \* isiterable: type(j)(deep_round(*j)[0])
        THEN [j EXCEPT !.c = [i \in 1..Len(j.c) |-> DeepArg(j.c[i], tol)]]
+  ELSE IF j.t = "cmap"                               \* iterable: the type called with the keys is a ChainMap of the KEYS - the values are gone
+       THEN IF "deep_mapping_from_keys" \in Deviations THEN Node("cmap", <<>>) ELSE j
   ELSE IF j.t = "badit"                              \* isiterable(j) calls iter(j), and only expected a TypeError
        THEN IF "iter_error_propagates" \in Deviations THEN FAIL ELSE j
   ELSE IF j.t \in {"range", "ntuple", "ipnet", "iter"}   \* iterable, but type(j)(tuple of elements) raises / an iterator is not consumed
@@ -130,6 +140,8 @@ ShallowArg(j, tol) ==
   IF j.t = "float" THEN RoundLeaf(j, tol)
   ELSE IF j.t \in {"list", "tuple", "set", "fset"}
        THEN [j EXCEPT !.c = [i \in 1..Len(j.c) |-> IF j.c[i].t = "float" THEN RoundLeaf(j.c[i], tol) ELSE j.c[i]]]
+  ELSE IF j.t = "dict" /\ "shallow_dict_from_keys" \in Deviations /\ \E i \in 1..Len(j.c) : j.c[i].v = 105
+       THEN Node("dict", <<SItem(100, Str(101))>>)   \* dict(['ab']) == {'a': 'b'}
   ELSE IF j.t = "str" /\ "shallow_str_listified" \in Deviations
        THEN Str(999)                                \* str(['a', 'b'])
   ELSE j            \* not iterable, or a dict (dict(list of keys) raises: kept)
